@@ -3,7 +3,7 @@
    validator decided, checked against the model by vm_compute. *)
 From Coq Require Import String List NArith ZArith Bool.
 From J5V.lib Require Import Outcome Corr.
-From J5V.model Require Import RulesDecl RulesWrite RulesSpec Validate RulesSpecDec.
+From J5V.model Require Import RulesDecl RulesWrite RulesSpec Validate RulesSpecDec Regex.
 Import ListNotations.
 
 (* decidable equality on emitted annotations (transparent, so it computes) *)
@@ -67,7 +67,7 @@ Definition fout_eqb (a b : fout) : bool := if fout_eq_dec a b then true else fal
    j5.ext / j5.list annotations and the description are
    C04's business *)
 Definition c12_proj (o : fout) : fout :=
-  FO (fo_json o) (fo_number o) (fo_kind o) (fo_rep o) (fo_opt o) (fo_pres o) (fo_val o) None None None [].
+  FO (fo_json o) (fo_name o) (fo_number o) (fo_kind o) (fo_rep o) (fo_opt o) (fo_pres o) (fo_val o) None None None [].
 
 (* compile outcome: only the kind of failure is compared *)
 Definition out_agree (m : outcome fout) (o : outcome fout) : bool :=
@@ -97,7 +97,10 @@ Inductive c12case :=
 (* a whole message: the declarations, the emitted fields and per message (one
    value per field): what the real validator returned (violations on these
    fields only) and the Go oracle's conjunction of the declared rules *)
-| C12Obj (env : enum_env) (ds : list prop) (obs : list fout) (msgs : list (list fvalue * verdict * option bool)).
+| C12Obj (env : enum_env) (ds : list prop) (obs : list fout) (msgs : list (list fvalue * verdict * option bool))
+(* the regular-expression engine on its own: a pattern, whether Go's regexp compiles
+   it, and (text, regexp.MatchString) pairs *)
+| C12Re (p : str) (go_compiles : bool) (ms : list (str * bool)).
 
 Definition c12_check (c : c12case) : bool :=
   match c with
@@ -105,12 +108,17 @@ Definition c12_check (c : c12case) : bool :=
       out_agree (write_prop env idx d) obs &&
       match obs with
       | Ok o => forallb (fun p => match p with (fv, vd, g) =>
-                  verdict_eqb (validate_sem re_class_ok re_class_count (defined_numbers env) o fv) vd
-                  && spec_agree (rule_semb re_class_count env d fv) g end) vals
+                  verdict_eqb (validate_sem re_frag_ok re_frag_match (defined_numbers env) o fv) vd
+                  && spec_agree (rule_semb re_frag_match env d fv) g end) vals
       | _ => true
       end
   | C12Obj env ds obs msgs =>
       forallb (fun p => match p with (fvs, vd, g) =>
-                  verdict_eqb (validate_obj re_class_ok re_class_count (defined_numbers env) obs fvs) vd
-                  && spec_agree (rule_objb re_class_count env ds fvs) g end) msgs
+                  verdict_eqb (validate_obj re_frag_ok re_frag_match (defined_numbers env) obs fvs) vd
+                  && spec_agree (rule_objb re_frag_match env ds fvs) g end) msgs
+  | C12Re p go_compiles ms =>
+      (* the pattern lies in the modelled fragment; the parser agrees with Go on
+         whether it compiles; the derivative matcher agrees with MatchString *)
+      re_in_fragment p && Bool.eqb (re_frag_ok p) go_compiles &&
+      forallb (fun m => Bool.eqb (re_frag_match p (fst m)) (snd m)) ms
   end.
